@@ -371,3 +371,20 @@ brk("c19-glue-version-after-render", ["C19"], (BUILD, "        if arguments.vers
 brk("c19-schema-drops-process-dependency", ["C19"], (M, "            suit_directive_process_dependency: SuitRepPolicy,\n", ""))
 ben("c19-comment-and-whitespace", ["C19"], (ROOT_T, "        # Key is the index of suit-components that describe the dependency manifest\n", "        # dependency manifests, by component index\n"))
 ben("c19-extra-set", ["C19"], (ROOT_T, "{%- set component_list = [] %}", "{%- set component_list = [] %}\n{%- set unused_marker = 0 %}"))
+
+# ------------------------------------------------------------------ C03 round trip
+brk("c03-yaml-sorted", ["C03"], (IO, "yaml.dump(cls.parse_yaml_submanifests(data) if parse_hierarchy is True else data, fh, sort_keys=False)", "yaml.dump(cls.parse_yaml_submanifests(data) if parse_hierarchy is True else data, fh)"))
+brk("c03-json-sorted", ["C03"], (IO, "json.dump(cls.parse_json_submanifests(data) if parse_hierarchy is True else data, fh, sort_keys=False)", "json.dump(cls.parse_json_submanifests(data) if parse_hierarchy is True else data, fh, sort_keys=True)"))
+brk("c03-image-size-key", ["C03"], (M, '    def to_obj(self) -> dict:\n        """Dump SUIT representation to object."""\n        return {"raw": super().to_obj()}\n\n    @classmethod\n    def from_obj(cls, obj: dict) -> SuitUint:', '    def to_obj(self) -> dict:\n        """Dump SUIT representation to object."""\n        return {"size": super().to_obj()}\n\n    @classmethod\n    def from_obj(cls, obj: dict) -> SuitUint:'))
+brk("c03-bstr-truncated-hex", ["C03"], (C, "        return self.value.hex()\n\n\nclass SuitEmptyBstr", "        return self.value.hex()[:128]\n\n\nclass SuitEmptyBstr"))
+ben("c03-bstr-upper", ["C03"], (C, "        return self.value.hex()\n\n\nclass SuitEmptyBstr", "        return self.value.hex().upper() if len(self.value) > 64 else self.value.hex()\n\n\nclass SuitEmptyBstr"))
+brk("c03-format-table-asym", ["C03"], (IO, '        "yaml": "from_yaml_file",\n', ''))
+brk("c03-hierarchy-wrong-key", ["C03"], (IO, '                data["SUIT_Envelope_Tagged"][suit_integrated_dependencies.name][key] = SuitEnvelopeTagged.from_cbor(\n                    binascii.a2b_hex(data["SUIT_Envelope_Tagged"][suit_integrated_dependencies.name][key])\n                ).to_obj()', '                data["SUIT_Envelope_Tagged"][suit_integrated_dependencies.name][key] = SuitEnvelopeTagged.from_cbor(\n                    binascii.a2b_hex(list(data["SUIT_Envelope_Tagged"][suit_integrated_dependencies.name].values())[0])\n                ).to_obj()'))
+brk("c03-yaml-anchor-after", ["C03"], (IO, '                data = {**{"SUIT_Dependent_Manifests": {}}, **data}', '                data = {**data, **{"SUIT_Dependent_Manifests": {}}}'))
+brk("c03-always-expand", ["C03"], (IO, "json.dump(cls.parse_json_submanifests(data) if parse_hierarchy is True else data, fh, sort_keys=False)", "json.dump(cls.parse_json_submanifests(data) if parse_hierarchy else data, fh, sort_keys=False)"))
+brk("c03-keyid-union-order", ["C03", "C02"], (SEC, "        children=[\n            cbstr(SuitInt),\n            SuitBstr,\n        ]", "        children=[\n            SuitBstr,\n            cbstr(SuitInt),\n        ]"))
+brk("c03-uuid-size-17", ["C03", "C02"], (M, "        if len(cbstr) != 16:\n            raise ValueError(f\"Unable to construct UUID from: {cbstr.hex()}\")", "        if len(cbstr) != 17:\n            raise ValueError(f\"Unable to construct UUID from: {cbstr.hex()}\")"))
+brk("c03-new-parse-only-check", ["C03"], (C, "    @classmethod\n    def from_cbor(cls, cbstr: bytes) -> SuitHex:\n        \"\"\"Restore SUIT representation from passed CBOR.\"\"\"\n        return cls(cbstr)", "    @classmethod\n    def from_cbor(cls, cbstr: bytes) -> SuitHex:\n        \"\"\"Restore SUIT representation from passed CBOR.\"\"\"\n        if len(cbstr) > 65535:\n            raise ValueError(\"too long\")\n        return cls(cbstr)"))
+brk("c03-unnamed-filter", ["C03"], (C, "        return {k: v[1].to_obj() for k, v in self.value.items()}", "        return {k: v[1].to_obj() for k, v in self.value.items() if k}"))
+brk("c03-parse-simplified-model", ["C03"], (IO, "            suit = SuitEnvelopeTagged.from_cbor(data)\n            return suit.to_obj()\n\n    @classmethod\n    def from_suit_file_simplified", "            suit = SuitEnvelopeTaggedSimplified.from_cbor(data)\n            return suit.to_obj()\n\n    @classmethod\n    def from_suit_file_simplified"))
+ben("c03-json-explicit-default", ["C03"], (IO, "json.dump(cls.parse_json_submanifests(data) if parse_hierarchy is True else data, fh, sort_keys=False)", "json.dump(cls.parse_json_submanifests(data) if parse_hierarchy is True else data, fh)"))
